@@ -1043,4 +1043,90 @@ theorem fulfil_only_from_claim (s : Mpp) (op : Op) (i : Nat) (h : Out.fulfilPart
   | claimDone => simp [step] at h
   | failBack => simp [step, stepFailBack] at h
 
+/-- ids of the HTLCs an output list resolves (failed back or fulfilled) -/
+def resolvedIds : List Out → List Nat
+  | [] => []
+  | .failPart i :: os => i :: resolvedIds os
+  | .fulfilPart i :: os => i :: resolvedIds os
+  | _ :: os => resolvedIds os
+
+theorem resolvedIds_append (a b : List Out) : resolvedIds (a ++ b) = resolvedIds a ++ resolvedIds b := by
+  induction a with
+  | nil => rfl
+  | cons o os ih => cases o <;> simp [resolvedIds, ih]
+
+theorem resolvedIds_fail (l : List Part) : resolvedIds (l.map fun q => Out.failPart q.id) = l.map (·.id) := by
+  induction l with
+  | nil => rfl
+  | cons p ps ih => simp [resolvedIds, ih]
+
+theorem resolvedIds_fulfil (l : List Part) : resolvedIds (l.map fun q => Out.fulfilPart q.id) = l.map (·.id) := by
+  induction l with
+  | nil => rfl
+  | cons p ps ih => simp [resolvedIds, ih]
+
+/-- HTLC conservation for one step: every id resolved or held afterwards was held before or is the
+    arriving part (with multiplicity) -/
+theorem step_count_le (s : Mpp) (op : Op) (i : Nat) :
+    (resolvedIds (step s op).2 ++ ids (step s op).1).count i ≤ (ids s ++ partIds [op]).count i := by
+  cases op with
+  | part id value intended total cltv tag ev =>
+    simp only [step, partIds]
+    rcases stepPart_trichotomy s { id, value, intended, cltv, ticks := 0, totalRecv := none, total, tag, evenTlv := ev }
+      with h1 | ⟨t, g, e, a, d, h1⟩ | ⟨t, g, e, h1⟩ <;> rw [h1]
+    · simp only [resolvedIds, List.count_append]; omega
+    · simp only [resolvedIds, List.nil_append, ids]
+      have := ((completedParts_perm s { id, value, intended, cltv, ticks := 0, totalRecv := none, total, tag, evenTlv := ev }).map (·.id)).count_eq i
+      simp only [List.map_map, Function.comp_def, List.map_append, List.map_cons, List.map_nil] at this
+      rw [this]; exact Nat.le_refl _
+    · simp [resolvedIds, ids]
+  | tick =>
+    simp only [step, partIds, List.append_nil]
+    rcases stepTick_outs s with ⟨h1, _⟩ | ⟨h1, h2, _⟩
+    · rw [h1]
+      simp only [resolvedIds, List.nil_append]
+      unfold stepTick
+      split
+      · exact Nat.le_refl _
+      · simp only
+        split
+        · simp [ids, List.map_map, Function.comp_def]
+        · split
+          · simp [ids]
+          · simp [ids, List.map_map, Function.comp_def]
+    · rw [h1, resolvedIds_fail]; simp [ids, h2]
+  | block ht =>
+    simp only [step, partIds, List.append_nil, stepBlock, resolvedIds_fail, ids]
+    have := ((List.filter_append_perm (fun q => mppOnchainTimeout ht q.cltv) s.parts).map (·.id)).count_eq i
+    simp only [List.map_append] at this
+    rw [← this]
+    simp [List.count_append]
+  | claim known =>
+    simp only [step, partIds, List.append_nil]
+    have hp := stepClaim_parts s known
+    rcases stepClaim_outs s known with h1 | h1 | h1 | h1 | ⟨amt, h1, _⟩ <;> rw [h1] <;>
+      simp [resolvedIds, resolvedIds_fail, resolvedIds_fulfil, resolvedIds_append, ids, hp]
+  | claimDone => simp [step, partIds, resolvedIds, ids]
+  | failBack => simp [step, partIds, stepFailBack, resolvedIds_fail, ids]
+
+theorem run_count_le (s : Mpp) (ops : List Op) (i : Nat) :
+    (resolvedIds (run s ops).2 ++ ids (run s ops).1).count i ≤ (ids s ++ partIds ops).count i := by
+  induction ops generalizing s with
+  | nil => simp [run, resolvedIds, partIds]
+  | cons op ops ih =>
+    have h1 := step_count_le s op i
+    have h2 := ih (step s op).1
+    have hpa := partIds_append [op] ops
+    simp only [List.singleton_append] at hpa
+    simp only [run, resolvedIds_append, List.count_append, hpa] at h1 h2 ⊢
+    omega
+
+theorem count_resolvedIds (outs : List Out) (i : Nat) :
+    (resolvedIds outs).count i = outs.count (.failPart i) + outs.count (.fulfilPart i) := by
+  induction outs with
+  | nil => rfl
+  | cons o os ih =>
+    cases o <;> simp only [resolvedIds, List.count_cons, ih, beq_iff_eq, Out.failPart.injEq, Out.fulfilPart.injEq,
+      reduceCtorEq, ↓reduceIte] <;> (try split) <;> omega
+
 end Ldk.InboundPay
